@@ -25,6 +25,8 @@ func TestDebug(t *testing.T) {
 		sp = c11specs()[0]
 	case "C13":
 		sp = c13specs("C13")[0]
+	case "C34":
+		sp = c34specs()[0]
 	case "C24":
 		sp = c2324specs("C24")[0]
 	case "C24b":
@@ -68,4 +70,42 @@ func TestDebug(t *testing.T) {
 		g.Finish()
 		return "", nil
 	})
+}
+
+// TestDebugE2 replays VERIF_DEBUG_E2="C13;<scenario name substring>;1,0,0,1" and prints the trace with labels.
+func TestDebugE2(t *testing.T) {
+	arg := os.Getenv("VERIF_DEBUG_E2")
+	if arg == "" {
+		t.Skip()
+	}
+	parts := strings.Split(arg, ";")
+	var specs []gw.E2Spec
+	switch parts[0] {
+	case "C13", "C14":
+		specs = c13e2(parts[0])
+	case "C03":
+		specs = c03e2()
+	case "C11":
+		specs = c11e2()
+	default:
+		t.Fatal("unknown property")
+	}
+	var prefix []int
+	for _, f := range strings.Split(parts[2], ",") {
+		var n int
+		fmt.Sscan(f, &n)
+		prefix = append(prefix, n)
+	}
+	for _, sp := range specs {
+		if !strings.Contains(sp.Name, parts[1]) {
+			continue
+		}
+		res := gw.RunE2(t, sp, prefix)
+		fmt.Printf("== %s\n", sp.Name)
+		for i, st := range res.Trace {
+			fmt.Printf("  %2d kind=%v n=%d choice=%d t=%v %v\n", i, st.Kind, st.N, st.Choice, st.Time, st.Labels)
+		}
+		fmt.Printf("outcome: %s\nviolations: %v\nharness: %s\npanics: %v\n", res.Outcome, res.Violations, res.HarnessErr, res.Panics)
+		return
+	}
 }
